@@ -206,8 +206,8 @@ class C14(core.Check):
                 for (kw, kind, L, nt) in out['traces']:
                     res.seen((name, kw, kind, L), nt)
                 for p in out['probs']:
-                    by_cls.setdefault(p['cls'], []).append(p)
-            for cls, ps in sorted(by_cls.items()):
+                    by_cls.setdefault((p['cls'], '1' if indlib.window1(p['kw']) else None), []).append(p)
+            for (cls, win), ps in sorted(by_cls.items(), key=lambda kv: (kv[0][0], kv[0][1] or '')):
                 flds = sorted({p['field'] for p in ps})
                 regimes = sorted({('<=240' if p['n'] <= indlib.WARMUP else '>240') for p in ps})
                 first = next((p for p in ps if p.get('candles')), ps[0])
@@ -216,7 +216,8 @@ class C14(core.Check):
                                       'candles': first.get('candles')},
                             'observed': {k: v for k, v in first.items() if k not in ('candles', 'kw', 'kind', 'cls')},
                             'expected': 'the three clauses of C14 for every field',
-                            'params': {'indicator': name, 'fields': ','.join(flds), 'lengths': ','.join(regimes)},
+                            'params': dict({'indicator': name, 'fields': ','.join(flds), 'lengths': ','.join(regimes)},
+                                           **({'window': win} if win else {})),
                             'metrics': {'cases_failing': len(ps)},
                             'how': first['what']})
             if not by_cls and len(res.samples) < 3:
